@@ -48,7 +48,7 @@ Proof. exact L_chunk_v4. Qed.
    decodes to its entries, then for EVERY thread count the stitched result is the concatenation of the
    blocks in table order (any version). *)
 Theorem chunked_decode_is_concatenation : forall v4 data table bl threads, 1 <= threads ->
-  Forall2 (row_ok v4 data) table bl -> sumc table < 4294967296 ->
+  Forall2 (row_ok v4 data) table bl ->
   decode_chunked v4 data table threads = Ok (concat bl).
 Proof. exact L_decode_chunked_ok. Qed.
 
@@ -56,7 +56,7 @@ Proof. exact L_decode_chunked_ok. Qed.
    decoding serially both give exactly the entries git stored ([pre] = the 12 header bytes in a real
    file, [rest] = extensions and trailer). *)
 Theorem thread_limit_irrelevant_v23 : forall blocks pre rest threads,
-  Forall (Forall wf_entry) blocks -> N.of_nat (length (concat blocks)) < 4294967296 -> 1 <= threads ->
+  Forall (Forall wf_entry) blocks -> 1 <= threads ->
   let bbs := map (git_entries false [] false) blocks in
   let data := pre ++ concat bbs ++ rest in
   let table := combine (block_offsets (N.of_nat (length pre)) bbs) (map (fun b => N.of_nat (length b)) blocks) in
